@@ -11,7 +11,12 @@ package main
 import (
 	"encoding/binary"
 	"fmt"
+	"strings"
+	"testing"
+	"testing/synctest"
 	"time"
+
+	"github.com/postalsys/muti-metroo/internal/config"
 
 	"github.com/postalsys/muti-metroo/internal/identity"
 	"github.com/postalsys/muti-metroo/internal/sleep"
@@ -28,6 +33,19 @@ type replay struct {
 	Tol    int64  `json:"tolerance_ns"`
 	T      int64  `json:"instant_unix_ns"`
 	Why    string `json:"why,omitempty"`
+	// set for the cases that go through the configuration and sleep.NewManager
+	Mgr *mgrReplay `json:"manager,omitempty"`
+}
+
+// mgrReplay: deterministic windows configured as in the YAML (durations and
+// the epoch as an RFC3339 string), asked through a sleep.Manager at a virtual
+// instant (the bubble's clock starts at 2000-01-01T00:00:00Z).
+type mgrReplay struct {
+	PollInterval int64  `json:"poll_interval_ns"`
+	WindowLength int64  `json:"window_length_ns"`
+	Tolerance    int64  `json:"clock_tolerance_ns"`
+	Epoch        string `json:"epoch"`
+	AdvanceNs    int64  `json:"advance_ns"`
 }
 
 type observed struct {
@@ -134,7 +152,68 @@ func monitor(c *vh.Ctx, r replay, o observed) {
 
 func coqZ(v int64) string { return vh.CoqZ(v) }
 
-func main() {
+type mgrObs struct {
+	NowNs, EpochNs                             int64
+	Start, End, SafeStart, SafeEnd, Mid, Until int64
+	Active                                     bool
+	LocalSame, StatusSame, CalcSame            bool
+	CalcStart, CalcEnd                         int64
+}
+
+// runManager builds a real sleep.Manager from a SleepConfig (as the agent
+// does) inside a bubble, advances the virtual clock and asks the Manager for
+// the agent's next window in the three ways it offers.
+func runManager(t *testing.T, r replay) (o mgrObs, panicked string) {
+	synctest.Test(t, func(t *testing.T) {
+		panicked = vh.Recover(func() {
+			m := r.Mgr
+			cfg := config.SleepConfig{Enabled: true, PollInterval: time.Duration(m.PollInterval), PollDuration: time.Second,
+				DeterministicWindows: config.DeterministicWindowConfig{Enabled: true, WindowLength: time.Duration(m.WindowLength),
+					ClockTolerance: time.Duration(m.Tolerance), Epoch: m.Epoch}}
+			mgr := sleep.NewManager(cfg, t.TempDir(), nil)
+			id := mkID(r.Hi, r.Lo)
+			mgr.SetLocalID(id)
+			time.Sleep(time.Duration(m.AdvanceNs))
+			now := time.Now()
+			o.NowNs = now.UnixNano()
+			// the harness's own reading of the configured epoch: the instant the string denotes
+			epoch := time.Unix(0, 0).UTC()
+			if m.Epoch != "" {
+				if e, err := time.Parse(time.RFC3339, m.Epoch); err == nil {
+					epoch = e
+				}
+			}
+			o.EpochNs = epoch.UnixNano()
+			info := mgr.GetNextWindowInfo(id)
+			if info == nil {
+				panic("GetNextWindowInfo returned nil with deterministic windows enabled")
+			}
+			o.Start, o.End, o.SafeStart, o.SafeEnd = info.Start.UnixNano(), info.End.UnixNano(), info.SafeStart.UnixNano(), info.SafeEnd.UnixNano()
+			o.Mid, o.Until, o.Active = info.Midpoint.UnixNano(), int64(info.TimeUntil), info.CurrentlyActive
+			same := func(a *sleep.WindowInfo) bool {
+				return a != nil && a.Start.Equal(info.Start) && a.End.Equal(info.End) && a.SafeStart.Equal(info.SafeStart) && a.SafeEnd.Equal(info.SafeEnd) &&
+					a.Midpoint.Equal(info.Midpoint) && a.TimeUntil == info.TimeUntil && a.CurrentlyActive == info.CurrentlyActive
+			}
+			o.LocalSame = same(mgr.GetLocalWindowInfo())
+			o.StatusSame = same(mgr.GetStatus().NextWindow)
+			// the windows of the configured epoch instant, from the calculator itself
+			wl, tol := time.Duration(m.WindowLength), time.Duration(m.Tolerance)
+			if wl <= 0 {
+				wl = sleep.DefaultWindowConfig().WindowLength
+			}
+			if tol <= 0 {
+				tol = sleep.DefaultWindowConfig().ClockTolerance
+			}
+			calc := sleep.NewWindowCalculator(sleep.WindowConfig{CycleLength: time.Duration(m.PollInterval), WindowLength: wl, ClockTolerance: tol, Epoch: epoch})
+			ci := calc.GetWindowInfo(id, now)
+			o.CalcStart, o.CalcEnd = ci.Start.UnixNano(), ci.End.UnixNano()
+			o.CalcSame = same(&ci)
+		})
+	})
+	return
+}
+
+func TestVerif(t *testing.T) {
 	c := vh.Start("C33")
 	defer c.Finish()
 	c.Res.Rule = "case = (identity halves, epoch, cycle, window, tolerance, instant); the real WindowCalculator's NextWindow / IsInWindow / GetWindowInfo / PreviousWindow answers are compared with the model; " +
@@ -171,13 +250,66 @@ func main() {
 		}
 	}
 
+	var coqMgr []string
+	var mgrTodo []replay
+	nCalcCases := 0
+	runMgrCase := func(r replay) {
+		o, p := runManager(t, r)
+		if p != "" {
+			c.Fail("panic", p, r)
+			return
+		}
+		m := r.Mgr
+		c.Case(fmt.Sprintf("mgr/%d/%s/%d/%d/%d/%d", r.Hi^r.Lo, m.Epoch, m.PollInterval, m.WindowLength, m.Tolerance, m.AdvanceNs), true, r)
+		c.Count("manager-case")
+		if strings.HasSuffix(m.Epoch, "Z") || m.Epoch == "" || strings.HasSuffix(m.Epoch, "+00:00") {
+			c.Count("manager-epoch-utc-or-default")
+		} else {
+			c.Count("manager-epoch-with-zone-offset")
+		}
+		coqMgr = append(coqMgr, fmt.Sprintf("mkmgr %s %s %s %s %s %s %s %s %s %s %s %s %s %s",
+			vh.CoqN(r.Hi), vh.CoqN(r.Lo), coqZ(o.EpochNs), coqZ(m.PollInterval), coqZ(m.WindowLength), coqZ(m.Tolerance), coqZ(o.NowNs),
+			coqZ(o.Start), coqZ(o.End), coqZ(o.SafeStart), coqZ(o.SafeEnd), coqZ(o.Mid), coqZ(o.Until), vh.CoqBool(o.Active)))
+		if !o.CalcSame {
+			c.Fail("manager-windows-not-on-configured-epoch", fmt.Sprintf("epoch %q (instant %d ns), cycle %d ns: the Manager reports the next window [%d,%d] at %d, the agent's windows for that epoch give [%d,%d]",
+				m.Epoch, o.EpochNs, m.PollInterval, o.Start, o.End, o.NowNs, o.CalcStart, o.CalcEnd), r)
+		}
+		if !o.LocalSame || !o.StatusSame {
+			c.Fail("manager-window-views-disagree", fmt.Sprintf("GetNextWindowInfo, GetLocalWindowInfo and GetStatus().NextWindow differ (local same=%v, status same=%v)", o.LocalSame, o.StatusSame), r)
+		}
+	}
+
 	if c.Replay != "" {
 		var r replay
 		if err := c.ReadReplay(&r); err != nil {
 			panic(err)
 		}
-		runCase(r)
+		if r.Mgr != nil {
+			runMgrCase(r)
+		} else {
+			runCase(r)
+		}
 	} else {
+		// configuration -> sleep.NewManager -> calculator: epochs written with zone offsets
+		epochs := []string{"2024-03-01T05:30:00+05:30", "2023-11-05T01:59:59-08:00", "2031-01-01T00:30:00+01:00", "1999-12-31T22:00:00-03:00",
+			"2000-01-01T00:00:00Z", "1987-06-05T04:03:02.123456789+05:45", "", "not-a-date", "2024-03-01T00:00:00+00:00", "2010-10-10T10:10:10-09:30"}
+		polls := []int64{7200e9, 420e9, 2700e9, 300e9, 3600e9, 11e9, 86400e9}
+		for _, ep := range []string{"2024-03-01T05:30:00+05:30", "2023-11-05T01:59:59-08:00", "2031-01-01T00:30:00+01:00"} {
+			for i, poll := range []int64{7200e9, 420e9, 2700e9} {
+				mgrTodo = append(mgrTodo, replay{Hi: uint64(i) * 977, Lo: 0x1234567890abcdef, Mgr: &mgrReplay{PollInterval: poll, WindowLength: 30e9, Tolerance: 5e9, Epoch: ep, AdvanceNs: int64(i) * 3601e9}})
+			}
+		}
+		nm := c.N(150, 3000)
+		for i := 0; i < nm; i++ {
+			rr := c.Rand.Fork()
+			poll := polls[rr.Intn(len(polls))]
+			m := &mgrReplay{PollInterval: poll, Epoch: epochs[rr.Intn(len(epochs))],
+				WindowLength: []int64{0, 30e9, 10e9, poll, 1}[rr.Intn(5)], Tolerance: []int64{0, 2e9, 1}[rr.Intn(3)],
+				AdvanceNs: []int64{0, 1, int64(rr.U64() % uint64(poll)), int64(rr.U64() % uint64(40*86400e9)), 25 * 365 * 86400e9}[rr.Intn(5)]}
+			mgrTodo = append(mgrTodo, replay{Hi: rr.U64(), Lo: rr.U64(), Mgr: m})
+		}
+	}
+	if c.Replay == "" {
 		// fixed witnesses first (regressions of the two repaired defects)
 		// 1. one nanosecond before the Unix epoch, identity with offset 0:
 		//    the window [-300s,-270s] ... of the cycle containing t.
@@ -331,5 +463,14 @@ func main() {
 		}
 	}
 
-	c.WriteCasesV("cases.v", scx.CasesV("From Coq Require Import List NArith ZArith.\nFrom MM Require Import Model.Window.\nImport ListNotations.\n", "case", "mismatches_from", coq, 1500))
+	nCalcCases = c.Res.Evaluations
+	for _, r := range mgrTodo {
+		runMgrCase(r)
+	}
+	if c.Replay != "" {
+		nCalcCases = 0
+	}
+	hdr := "From Coq Require Import List NArith ZArith.\nFrom MM Require Import Model.Window.\nImport ListNotations.\n"
+	c.WriteCasesV("cases.v", scx.CasesV(hdr, "case", "mismatches_from", coq, 1500))
+	c.WriteCasesV("cases_manager.v", scx.CasesVAt(hdr, "mgrcase", "mgr_mismatches_from", coqMgr, 1500, nCalcCases, "G"))
 }
